@@ -1,7 +1,7 @@
 ------------------------------- MODULE Shows -------------------------------
 (* Reference model of running shows (mpf/assets/show.py RunningShow, show_controller                *)
 (* replace_or_advance_show, show_player, light_player contexts) in abstract integer time units.     *)
-(* Up to two show slots run concurrently on the same lights.  All transitions are functions on a    *)
+(* Several show slots run concurrently on the same lights.  All transitions are functions on a      *)
 (* "world" record [st, lights, out] so that the call chains of the code (timer -> _run_next_step -> *)
 (* stop -> start_callback -> stop of the replaced show ...) are transcribed one to one.             *)
 (*   st[sh]     per slot: ph (none / wait = waiting for its sync point / run / done), idx = next      *)
